@@ -16,7 +16,7 @@ def _bit():
     return _bits[i] if i < len(_bits) else False
 def m(k): print('m', k)
 def c(k):
-    b = _bit(); print('c', k, b); return b
+    b = _bit(); print('c', k, b); return (True, 1, [0], 'x', (None,))[k %% 5] if b else (False, 0, [], '', None)[k %% 5]
 def v(k): print('v', k); return k
 def r(x): print('r', x)
 class _It:
@@ -154,7 +154,8 @@ def programs(chk):
     # moderately long programs: the older runtimes have smaller parser limits (about 100 nested brackets on 3.8)
     from harness.props import c17
     for fam, n in (("statements", 120), ("statements", 180), ("elif", 40), ("binop", 120), ("calls", 120), ("attrs", 120),
-                   ("nested_if", 15), ("nested_for", 8), ("pattern", 20)):
+                   ("nested_if", 15), ("nested_for", 8), ("pattern", 20),
+                   ("guard_return", 120), ("guard_continue", 120), ("guard_break", 120)):
         add("size probes", c17.FAMILIES[fam](n))
     for _ in range(200 if big else 25):
         b, pl = gen_cf.random_skeleton(rng, 3)
